@@ -189,6 +189,34 @@ CLAIMED = {
          'only by the correspondence); floats are opaque bit patterns; only sqlite storage is modelled.'),
    technique='Coq proof (pipeline composition theorem over all column types and paths, decimal-digit codecs by induction) + py2coq regeneration + vm_compute correspondence against sqlite',
    design='3/C01, docs/notes/C01.md'),
+ 'C07': dict(
+   text=('Machine-checked proof (Coq 8.16.1) over Model/Txn.v (a parent connection and one Transaction, each with its own identity-map cache; '
+         'sqlite committed state + the transaction\'s pending view; instances per connection; create/read/update/delete/select/count on both '
+         'sides, commit, rollback, begin, commit(close)), over ALL histories and every cache configuration: nothing the transaction does before '
+         'commit changes the committed state or anything on the parent side (C07_invisible_until_commit, C07_parent_leaves_transaction_alone); '
+         'commit makes the committed state equal to the transaction\'s view and, under the guard naming the open findings, every parent-side '
+         'instance shows exactly that state (C07_commit_database, C07_commit_shows_exact_state_partial); rollback leaves the committed state '
+         'untouched, created rows do not exist, transaction-side instances are expired (C07_rollback_database, C07_rollback_created_rows_gone, '
+         'C07_rollback_erases_partial); a finished transaction refuses every data operation until begin() (C07_obsolete_refuses, C07_begin). '
+         'Three open findings carry refutation witnesses. The model is run against the real SQLObject on a file-backed sqlite database, both '
+         'sides and a third raw connection read after every step.'),
+   note=('Trusted: Coq kernel; Model/Txn.v hand model (validated only by the correspondence); sqlite rollback-journal locking/visibility, '
+         'CPython refcounting, dict order modelled; one transaction object per parent; raw SQL through the transaction, lazyUpdate and '
+         'constraints outside the operation set.'),
+   technique='Coq proof (invariants over all interleavings of parent/transaction operations of an executable transaction model) + vm_compute correspondence against file-backed sqlite',
+   design='3/C07, docs/notes/C07.md'),
+ 'C08': dict(
+   text=('Machine-checked proof (Coq 8.16.1) over Model/Hub.v (thread-local and process-level hub slots, doInTransaction as coded, bodies of '
+         'create/update/delete steps raising after any prefix, several threads each with its own thread connection interleaved at step '
+         'granularity): the call either returns the body\'s value with exactly the body applied to the committed table, or re-raises the '
+         'same exception with the table unchanged (C08_all_or_nothing, C08_same_exception); afterwards the hub resolves for EVERY thread to what '
+         'it resolved to before, for thread- and process-level binding (C08_hub_restored); the transaction is obsolete and its connection released '
+         '(C08_released); with several threads each thread\'s effects appear all at once at its commit, nothing on a raise, and other threads are '
+         'isolated (C08_threads_*). No guard remains. The model is run against the real SQLObject with real threads driven step by step.'),
+   note=('Trusted: Coq kernel; Model/Hub.v hand model (validated only by the correspondence); sqlite locking as definitions; one body step per '
+         'tick; BaseExceptions that are not Exceptions and nested doInTransaction outside the property.'),
+   technique='Coq proof (all bodies x all raise points x all schedules of an executable hub/transaction model) + vm_compute correspondence against file-backed sqlite with real threads',
+   design='3/C08, docs/notes/C08.md'),
  'C16': dict(
    text=('Machine-checked proof (Coq 8.16.1) over the ORM model Model/Orm.v: for every history (any operations, failures, injected faults, '
          'out-of-band SQL, any cache configuration) the dirty flag of every held object is true exactly while assignments are pending '
